@@ -1019,6 +1019,19 @@ pub fn run_coop_case(which: &str, case: &CoopCase) -> SeqOutcome {
             }
         }
     }
+    // listed finding cyc-kf5 (provisional member of a vanished cycle accepted as final)
+    if case.prog.lattice {
+        let km = world.lock().unwrap().ctx.keymap.lock().unwrap().clone();
+        let node_of = |id: u64| km.get(&id).map(|x| x.0);
+        if crate::props::cyc::abandoned_member_signature(&run.log, &node_of) {
+            outc.labels.push("kf-provisional-member-of-vanished-cycle");
+            for x in v.iter_mut() {
+                if x.rule == "value-mismatch" {
+                    x.rule = crate::props::cyc::KF_ABANDONED.to_string();
+                }
+            }
+        }
+    }
     if which == "C19" {
         // C19 owns only the protocol-trace rules; "non-trivial" = a wake-up whose result is not `completed`
         v.retain(|x| x.rule == "hang");
